@@ -87,9 +87,16 @@ fn main() {
     }
     let seed: u64 = std::env::var("VERIF_SEED").ok().and_then(|s| s.parse().ok()).unwrap_or(1);
     // a subject panic inside a case is caught per case; keep the default hook quiet
-    if std::env::var("VERIF_PANIC").is_err() {
-        std::panic::set_hook(Box::new(|_| {}));
-    }
+    // the hook only records where a panic came from (code under /repo = the subject) so that
+    // `Ctx::guard` can tell a subject panic (a finding of the case) from a harness bug (exit 2)
+    let verbose_panics = std::env::var("VERIF_PANIC").is_ok();
+    std::panic::set_hook(Box::new(move |info| {
+        let loc = info.location().map(|l| format!("{}:{}", l.file(), l.line())).unwrap_or_default();
+        vcore::LAST_PANIC_LOC.with(|c| *c.borrow_mut() = loc.clone());
+        if verbose_panics {
+            eprintln!("panic at {}: {}", loc, info);
+        }
+    }));
     // a panic of the harness itself is a machinery failure (exit 2), never a verdict
     let code = match std::panic::catch_unwind(std::panic::AssertUnwindSafe(|| checks::dispatch(&prop, tier, seed, replay))) {
         Ok(c) => c,
